@@ -34,11 +34,21 @@ def _build(crate_dir, target, binpath, rustflags, extra_env=None):
         lock.close()
 
 
+def _scratch():
+    """a scratch tree is under test (VERIF_REPO set by tools/seedtest.py): keep its harness builds
+    apart from those for /repo, so that concurrent runs never share a binary or a shadow manifest"""
+    return core.REPO != "/repo"
+
+
 def build_b1():
+    global B1_TARGET, B1_BIN
+    if _scratch():
+        B1_TARGET = core.TARGET + "-b1"
+        B1_BIN = os.path.join(B1_TARGET, "release", "fclones-shuttle-b1")
     _build(B1_DIR, B1_TARGET, B1_BIN, "--cfg fclones_verif_shuttle")
 
 
-def write_shadow_manifest():
+def write_shadow_manifest(d=None):
     """/verif/.build/fclones-shadow/Cargo.toml: the fclones package with its own dependencies,
     `[lib] path` pointing at the sources under test, plus the shuttle dependency.  The repository's
     Cargo.toml and Cargo.lock stay untouched."""
@@ -50,7 +60,7 @@ def write_shadow_manifest():
     src = src.replace('edition = "2021"\n', 'edition = "2021"\nautobins = false\nautotests = false\nautoexamples = false\nautobenches = false\n', 1)
     src = src.replace('readme = "README.md"\n', '')
     src += '\n[lib]\nname = "fclones"\npath = "%s/fclones/src/lib.rs"\n\n[workspace]\n' % repo
-    d = os.path.join(core.BUILD, "fclones-shadow")
+    d = d or os.path.join(core.BUILD, "fclones-shadow")
     os.makedirs(d, exist_ok=True)
     path = os.path.join(d, "Cargo.toml")
     old = open(path).read() if os.path.exists(path) else None
@@ -59,9 +69,25 @@ def write_shadow_manifest():
 
 
 def build_b2():
+    global B2_TARGET, B2_BIN
     os.makedirs(core.BUILD, exist_ok=True)
-    write_shadow_manifest()
-    _build(B2_DIR, B2_TARGET, B2_BIN, "--cfg fclones_verif --cfg fclones_verif_shuttle")
+    crate = B2_DIR
+    if _scratch():
+        import shutil
+        base = core.TARGET + "-b2"
+        B2_TARGET = os.path.join(base, "target")
+        B2_BIN = os.path.join(B2_TARGET, "release", "fclones-shuttle-b2")
+        crate = os.path.join(base, "crate")
+        shadow = os.path.join(base, "shadow")
+        if os.path.exists(crate):
+            shutil.rmtree(crate)
+        shutil.copytree(B2_DIR, crate)
+        m = open(os.path.join(crate, "Cargo.toml")).read().replace('"../../.build/fclones-shadow"', '"%s"' % shadow)
+        open(os.path.join(crate, "Cargo.toml"), "w").write(m)
+        write_shadow_manifest(shadow)
+    else:
+        write_shadow_manifest()
+    _build(crate, B2_TARGET, B2_BIN, "--cfg fclones_verif --cfg fclones_verif_shuttle")
 
 
 def run_bin(binpath, args, timeout=3600, env=None):
